@@ -6,15 +6,20 @@ _spec = importlib.util.spec_from_file_location('c19_gen', os.path.join(os.path.d
 _c19 = importlib.util.module_from_spec(_spec)
 _spec.loader.exec_module(_c19)
 
-RULE = ('triangle/polyline: correspondence of the styled model (coq/Model/Tristyled.v) for the cases whose scanline/segment generator is modelled: '
+RULE = ('triangle/polyline: correspondence of the styled model (coq/Model/Tristyled.v): the consumers with the stroke-width-0 generator and the thin polyline '
+        'directly, the STROKE branches through the pipeline model (join_tri_pixels / join_tri_rects: widths 0..6, 3 alignments, fill on/off, all triples '
+        'of a 4x4 grid + random) which C01_bridge_tri_jt_pixels / _jt_draw prove to be the same consumers; '
         'Styled<Triangle> with stroke width 0 (pixels() list and the fill_solid calls of draw(), all fill/stroke-colour/alignment combinations) on ALL '
         'vertex triples of a 5x5 grid + random ones, Styled<Polyline> with width 0 and 1 on all vertex lists of length 0..=4 over a 3x3 grid + random ones; '
         'search p_tri_styled (implementation only, ANY stroke width 0..=12, 3 alignments, fill/stroke present/absent): pixels() image = draw() image on a '
         'draw_iter-only and on a native target, no pixel with two colours, everything inside the styled bounding box, transparent draws nothing, '
         'width 0 triangle = points() in the fill colour, thin polyline = points() in the stroke colour; on all vertex triples of a 4x4 grid x 18 styles, '
         'random triangles/polylines up to +-30.')
-PARTIAL = ['C01_tri_triangle_glue_pixels_draw / C01_tri_polyline_glue_pixels_draw are statements about the two consumers for ANY generator output; '
-           'the thick-stroke generators themselves (ThickSegment, LineJoin, scanline merging) are not modelled here: compared by p_tri_styled']
+PARTIAL = ['C01_bridge_tri_stroked_pixels_draw_partial (full: pixels() = draw() for every stroked triangle; proved: for ANY rows of the un-fused scanline '
+           'generator the two consumers write the same list provided the first two rows of the styled box are not both empty while a later row is not '
+           '(first_rows_ok); that this holds for the real generator is proved for stroke width 0 only, for wider strokes it is a computable hypothesis '
+           '(never false in 4 million brute-force cases of the audit) - compared by p_tri_styled / p_paths)',
+           'C01_tri_polyline_glue_pixels_draw holds for ANY output of the per-row intersections; the thick polyline generator itself is in the join part (C01_join)']
 TRUSTED = ['modelled, not verified: DrawTarget::fill_solid(area, c) stores c at every point of area (row-major), Translated<T>::fill_solid shifts the area '
            '(properties C01a/C03 are about these)']
 ASSUMPTIONS = ['scanline coordinates within +-2^30 (no saturation in Rectangle::points of a one-row rectangle)']
@@ -53,6 +58,15 @@ def cases(tier, rng):
     for _ in range(n):
         vs = _c19.rnd_poly(rng)
         yield J('poly_styled_thin', rng.randrange(-20, 21), rng.randrange(-20, 21), rng.randrange(2), rng.randrange(2), len(vs), *_c19.flat(vs))
+    # the STROKE branches of the two consumers (Model/Tristyled.v) run inside the pipeline model Model/JoinTri.v
+    # (C01_bridge_tri_jt_pixels / _jt_draw): suites join_tri_pixels / join_tri_rects  (w align fill x1 y1 x2 y2 x3 y3) of the join part
+    for k, t in enumerate(_c19.grid_multisets(4 if tier == 'quick' else 5)):
+        w, al, fl = 1 + k % 4, k % 3, (k // 3) % 2
+        yield J('join_tri_pixels', w, al, fl, *t)
+        yield J('join_tri_rects', w, (al + 1) % 3, 1 - fl, *t)
+    for _ in range(n // 3):
+        t = _c19.rnd_tri(rng, 20)
+        yield J(rng.choice(['join_tri_pixels', 'join_tri_rects']), rng.randrange(0, 7), rng.randrange(3), rng.randrange(2), *t)
 
 
 def search(tier, rng):
